@@ -74,7 +74,7 @@ func BytePattern(t *rapid.T, label string) *big.Int {
 // Raw256 draws any value in [0, 2^256) from the boundary-biased mixture
 // relative to modulus m (not reduced).
 func Raw256(t *rapid.T, m *big.Int, label string) *big.Int {
-	strat := rapid.IntRange(0, 13).Draw(t, label+"_strat")
+	strat := rapid.IntRange(0, 14).Draw(t, label+"_strat")
 	v := new(big.Int)
 	switch strat {
 	case 0:
@@ -104,6 +104,8 @@ func Raw256(t *rapid.T, m *big.Int, label string) *big.Int {
 	case 9: // 2^256 - small
 		v.Sub(two256, one)
 		v.Sub(v, Small(t, label))
+	case 14: // the four limbs of the value (or of its Montgomery form) satisfy a relation among themselves
+		v = LimbRelation(t, m, label)
 	case 13: // limb-wise mixture around the modulus' own limbs (hostile for limb-by-limb range checks)
 		v = ModLimbMix(t, m, label)
 	case 12: // next to k*2^256/c for the small constants the formulas multiply by
@@ -368,4 +370,55 @@ func ModLimbMix(t *rapid.T, m *big.Int, label string) *big.Int {
 		v.Or(v, new(big.Int).SetUint64(l))
 	}
 	return v
+}
+
+// LimbRelation draws a non-zero value whose four 64-bit limbs -- of the integer
+// itself or, half of the time, of its Montgomery representation -- satisfy a
+// relation: they sum to 0 mod 2^64, xor to zero, are pairwise equal, or two
+// of them cancel.  Predicates that fold the limbs with the wrong operator
+// (a sum or xor where an OR is needed, a comparison of folded halves) are
+// wrong exactly on such values.
+func LimbRelation(t *rapid.T, m *big.Int, label string) *big.Int {
+	for try := 0; try < 16; try++ {
+		var l [4]uint64
+		for i := range l {
+			l[i] = Limb(t, fmt.Sprintf("%s_rl%d_%d", label, try, i))
+		}
+		free := rapid.IntRange(0, 2).Draw(t, fmt.Sprintf("%s_free%d", label, try)) // the top limb stays free so that the value can be < m
+		switch Sampled([]string{"sum", "sum", "xor", "pair-equal", "cancel"}).Draw(t, fmt.Sprintf("%s_rel%d", label, try)) {
+		case "sum":
+			var sum uint64
+			for i := range l {
+				if i != free {
+					sum += l[i]
+				}
+			}
+			l[free] = -sum
+		case "xor":
+			var x uint64
+			for i := range l {
+				if i != free {
+					x ^= l[i]
+				}
+			}
+			l[free] = x
+		case "pair-equal":
+			l[0], l[2] = l[1], l[3]
+		case "cancel":
+			l[free] = -l[(free+1)%3]
+		}
+		v := new(big.Int)
+		for i := 3; i >= 0; i-- {
+			v.Lsh(v, 64)
+			v.Or(v, new(big.Int).SetUint64(l[i]))
+		}
+		if v.Sign() == 0 || v.Cmp(m) >= 0 {
+			continue
+		}
+		if rapid.Bool().Draw(t, label+"_relmont") {
+			return ref.FromM(v, m)
+		}
+		return v
+	}
+	return Int256(t, m, label+"_relfallback")
 }
